@@ -26,6 +26,22 @@ Theorem C08_top_is_innermost : forall sp evs r',
 Proof. exact stack_channel_top. Qed.
 Print Assumptions C08_top_is_innermost.
 
+(* "the timeline shows ..." at EVERY instant: acceptance is prefix closed and after every prefix of an accepted
+   history the channel holds the regions that prefix leaves open and shows the innermost one *)
+Theorem C08_every_instant : forall sp p q r',
+  cs_stack sp = true ->
+  chan_run sp (empty_stack_chan sp) (p ++ q) = Some r' ->
+  exists rp, chan_run sp (empty_stack_chan sp) p = Some rp /\
+             hist p (r_stk rp) /\ raw_read sp rp = hd_error (r_stk rp).
+Proof. exact stack_channel_every_instant. Qed.
+Print Assumptions C08_every_instant.
+
+(* a refused history stays refused whatever follows: one improper leave or re-entry rejects the trace *)
+Theorem C08_refusal_is_final : forall sp p q,
+  chan_run sp (empty_stack_chan sp) p = None -> chan_run sp (empty_stack_chan sp) (p ++ q) = None.
+Proof. exact stack_channel_refusal_is_final. Qed.
+Print Assumptions C08_refusal_is_final.
+
 (* inside the emulator core a table-driven event on channel k of a thread is that channel operation *)
 Theorem C08_event_is_channel_op : forall sx st who k a v,
   (who < length (threads st))%nat -> (k < length (s_chans sx))%nat ->
